@@ -183,7 +183,7 @@ def gen_triples(tier: str) -> Iterator[dict]:
                 yield case
 
 
-ARGS = {"int": ["3", "a"], "float": ["2.5", "a * 0.5"], "bool": ["True"], "str": ['"q"']}
+ARGS = {"int": ["3", "a"], "float": ["2.5", "a * 0.5"], "bool": ["True", "a > 2"], "str": ['"q"', '"hi" if a > 2 else "lo"', 'str(a)']}
 
 
 def gen_params(tier: str) -> Iterator[dict]:
@@ -281,6 +281,8 @@ N_SHADOW = {
     "param": (["def h(t):", "    return t * 2"], ["mon.write(h(4))"]),
     "param_float": (["def h(t):", "    return t * 2"], ["mon.write(h(1.5))"]),
     "helper_local": (["def h(p):", "    t = p + 1", "    return t"], ["mon.write(h(4))"]),
+    "helper_tuple": (["def h(p):", "    t, u9 = p * 0.5, p + 1", "    return t + u9"], ["mon.write(h(4))"]),
+    "helper_tuple_swap": (["def h(p):", "    t, u9 = 1.5, 2.5", "    t, u9 = u9, t", "    return t"], ["mon.write(h(4))"]),
     "helper_for": (["def h(p):", "    s = 0", "    for t in range(p):", "        s = s + t", "    return s"], ["mon.write(h(4))"]),
 }
 
@@ -293,7 +295,8 @@ def gen_names(tier: str) -> Iterator[dict]:
                 after += ["period = t * 3", "mon.write(period)", "mon.write(idf(t))"]
             first = [f"t = {oexpr}"]
             if placement == "setup":
-                src = common.script(HEAD + first + use + after, ["mon.write(t)"], prologue=PRO, defs=HELPERS + defs)
+                # the shadowing helper is defined after the outer name exists
+                src = common.script(HEAD + first + defs + use + after, ["mon.write(t)"], prologue=PRO, defs=HELPERS)
             elif placement == "loop":
                 src = common.script(HEAD, first + use + after, prologue=PRO, defs=HELPERS + defs)
             else:
@@ -333,9 +336,12 @@ T_GLOBAL = [
 
 def gen_topology(tier: str) -> Iterator[dict]:
     calls_sets = [("2", "2.5"), ("2.5", "2"), ("2.5",), ("2",), ("a", "a * 0.5"), ("a * 0.5", "a", "2.5")]
+    headers = ["def scaled(x):", "def scaled(x):  # scale it", "def scaled( x ) :", "def  scaled(x) :   # two notes # here"]
     for (cn, callee), (rn, caller) in itertools.product(T_CALLEE.items(), T_CALLER.items()):
-        for order in ("caller-first", "callee-first"):
+        for order, header in [("caller-first", h) for h in headers] + [("callee-first", headers[0])]:
+            callee = [header] + callee[1:]
             defs = (caller + callee) if order == "caller-first" else (callee + caller)
+            order = order + (":" + str(headers.index(header)) if header != headers[0] else "")
             for ci, calls in enumerate(calls_sets):
                 lines = []
                 for k, arg in enumerate(calls):
